@@ -33,7 +33,7 @@ ASSUMPTIONS = ['evaluate_bounded is excluded (interpreter-wide recursion limit),
                'no database change while an enumeration is suspended within one engine (that is C14)']
 
 NAMES = ['p', 'q', 't']
-PROBES = [('p', 1), ('q', 1), ('t', 1), ('p', 2), ('sp', 2), ('z0', 0), ('sh', 3)]
+PROBES = [('p', 1), ('q', 1), ('t', 1), ('p', 2), ('sp', 2), ('z0', 0), ('sh', 3), ('viar', 1), ('atom', 1), ('functor', 1), ('functor', 2), ('variable', 1), ('query', 1), ('unify', 1), ('makelist', 1)]
 
 
 def plan(tier, seed):
@@ -209,7 +209,21 @@ def engine_history(rng, eid, nsteps):
         Xs, Ys = V('Xs'), V('Ys')
         hist.append(('assert_fact', C('sh', Xs, pad, Xs), True))
         hist.append(('assert_fact', C('sh', C('f', Xs, Ys), pad, gen.L([Ys, Xs])), True))
+    reserved = rng.random() < 0.35
+    if reserved:
+        # predicates named like the engine's own API functions: a script may define them and a program may register
+        # them; whatever an engine does about such names is its own business and must not leak to the others
+        rn = rng.choice(['atom', 'functor', 'variable', 'query', 'unify', 'makelist'])
+        hist.append(('load', [(C(rn, A('e%d_r1' % eid)), ('true',)), (C(rn, A('e%d_r2' % eid), A('x')), ('true',)),
+                              (C('viar', V('X')), ('call', C(rn, V('X'))))], True))
     for _ in range(nsteps):
+        if reserved and rng.random() < 0.15:
+            sid += 1
+            if rng.random() < 0.5:
+                hist.append(('register', rn, 1, [(A('e%d_rpy%d' % (eid, sid)),)], 'explicit'))
+            else:
+                hist.append(('run', rng.choice([rn, 'viar']), [V('Rv%d_%d' % (eid, sid))], None))
+            continue
         if shared and rng.random() < 0.3:
             sid += 1
             key = rng.choice([A('e%d_s%d' % (eid, sid)), C('f', A('e%d_s%d' % (eid, sid)), I(sid))])
@@ -256,6 +270,19 @@ def engine_history(rng, eid, nsteps):
         hist.append(('next', q))
         hist.append(('close', q))
     hist.append(('dump', PROBES))
+    if rng.random() < 0.5:
+        # the host creates all its query variables first (they stay unbound and unused for a long time, while
+        # this and the other engines create and bind hundreds of variables of their own)
+        from ..terms import term_vars
+        names = []
+        for st in hist:
+            if st[0] in ('run', 'start'):
+                for a in (st[2] if st[0] == 'run' else st[3]):
+                    for v in term_vars(a):
+                        if v[1] != '_' and v[1] not in names:
+                            names.append(v[1])
+        if names:
+            hist.insert(0, ('mkvars', names))
     # a suspended enumeration must not see its own engine's store change (C14): drop modifications while queries are open
     out = []
     openset = set()
